@@ -33,7 +33,9 @@ HeaderPool ==
     H("X$TABName: tab in name", FALSE, "", "") }
 
 \* "200badutf8": a 200 reply shaped like JSON whose bytes are not UTF-8 (hence not JSON, RFC 8259 s8.1)
-ServerBehaviours == {"200json", "200garbage", "200badutf8", "404json", "400text", "500json", "503text", "refused", "closemid"}
+\* "200jsonthengarbage": a complete JSON value followed by other text; "200number": the text `404 page not found`
+\*  (which BEGINS with a JSON value) - neither body is JSON
+ServerBehaviours == {"200json", "200garbage", "200badutf8", "200jsonthengarbage", "200number", "404json", "400text", "500json", "503text", "refused", "closemid"}
 Succeeds(b) == b = "200json"
 
 \* the introspection document a flag combination selects
